@@ -11,6 +11,10 @@ R32.1 const_relations in parol::analysis::k_tuple (all values are read from the 
         the runtime's constants of the same name; INVALID equals the runtime's INVALID_TOKEN.
 R32.2 get/set agreement: both address bit offset i * bits() with the element mask mask() (see get_set_agree).
 R32.3 k_concat: the mask count equals the length increment, the placement offset equals the old length.
+R32.4 k_concat: the result is always `self` (possibly cleared / extended): the payload of `other` reaches the result only through
+      the masked, shifted value - never by returning `other` itself, which may be longer than k.
+R32.5 push: the slot write set(next_index, ..) / inc_index happens only where next_index < MAX_K is established by a dominating
+      comparison (slot MAX_K lies in the gap below / inside the header nibbles).
 Other shifting arithmetic (of, values x positions) is NOT decided.
 """
 from ..dataflow import operand_term, raw_operand_place
@@ -139,6 +143,8 @@ def check(ctx):
               "EPS truncated to the element width is not all ones", nontrivial=False)
     get_set_agree(ctx, facts)
     k_concat_agreement(ctx, facts)
+    k_concat_returns_self(ctx, facts)
+    push_capacity_guard(ctx, facts)
 
 
 # ------------------------------------------------------------------------------------------------------------------ R32.2
@@ -269,3 +275,92 @@ def k_concat_agreement(ctx, facts):
               "recorded length stay in the packed word, equal sequences compare / hash differently"
               % ([b.local_name(c[2]) if c else None for c, _l in mask_counts], [b.local_name(x) for x in new_len] if new_len else None),
               where(b, mask_counts[0][1] if mask_counts else None))
+
+
+
+def k_concat_returns_self(ctx, facts):
+    """R32.4 (added after seed C32-c) every value k_concat returns is its (mutated) `self`; `other.t` is read only as the left
+    operand of the `&` that cuts it to the number of terminals taken.  `other` may hold more than k terminals (k-tuples of a
+    larger k are concatenated to shorter ones while the look-ahead depth grows): returning it unclipped yields a tuple that is
+    longer than k, which then differs from the clipped tuple of the same prefix in sets and tries."""
+    from ..dataflow import raw_place
+    b = facts.body(T + "k_concat")
+    n = 0
+    for bi, si, p, rv, line, mac in b.assigns():
+        if p != [0]:
+            continue
+        n += 1
+        src = None
+        if rv[0] == "use" and rv[1][0] in ("c", "m"):
+            src = raw_place(b, rv[1][1])
+        ok = bool(src) and src[0] == 1 and len(src) == 1
+        ctx.check(ok, "R32.4", "k_concat|returns-self|%d" % n, "the return value is self",
+                  "k_concat returns something that is not its (clipped) self - %s: `other` is not cut to k terminals on this path"
+                  % ("other" if src and src[0] == 2 else "a new value"), where(b, line))
+    for c in b.calls():
+        if c.dest == [0]:
+            n += 1
+            ctx.bad("R32.4", "k_concat|returns-call-result", "k_concat returns the result of %s instead of its clipped self"
+                    % short(c.path or "?"), where(b, c.line))
+    ctx.require_floor("R32.4", "k_concat_returns", n, 1)
+    # reads of other.t: only as operand of BitAnd
+    bad = []
+    for bi, si, p, rv, line, mac in b.assigns():
+        ops = []
+        if rv[0] == "use":
+            ops = [rv[1]]
+        elif rv[0] == "bin":
+            if rv[1] == "BitAnd":
+                continue
+            ops = [rv[2], rv[3]]
+        for o in ops:
+            if o[0] in ("c", "m"):
+                rp = raw_place(b, o[1])
+                if rp[0] == 2 and any(isinstance(e, list) and e[0] == "f" and e[2] == "t" for e in rp[1:]):
+                    # a copy into a temporary that is then and-ed is fine: follow one step
+                    tmp = p[0] if len(p) == 1 else None
+                    used_in_and = tmp is not None and any(r2[0] == "bin" and r2[1] == "BitAnd" and
+                                                          any(x[0] in ("c", "m") and x[1] == [tmp] for x in (r2[2], r2[3]))
+                                                          for _b, _s, _p, r2, _l, _m in b.assigns())
+                    if not used_in_and:
+                        bad.append(line)
+    ctx.check(not bad, "R32.4", "k_concat|other-payload-only-masked", "other.t is read only through the clipping mask",
+              "k_concat reads other.t outside the clipping `&` (lines %s)" % bad, where(b))
+
+
+
+def push_capacity_guard(ctx, facts):
+    """R32.5 (added after seed C32-c) Terminals::push stores at slot next_index() and increments it; the payload has MAX_K slots
+    (0..MAX_K-1).  Every path to the store is guarded by a comparison of next_index() with a constant C that implies
+    next_index < MAX_K:  `>= C` false or `< C` true with C <= MAX_K, `> C` false or `<= C` true with C + 1 <= MAX_K."""
+    from .common import guards_on_all_paths
+    b = facts.body(T + "push")
+    max_k = facts.const("parol::MAX_K")
+    stores = [c for c in b.calls() if c.path in (T + "set", T + "inc_index")]
+    if not stores:
+        raise AnchorMissing("Terminals::push: no set / inc_index call")
+    for c in stores:
+        bound = None
+        for a, k, truth in guards_on_all_paths(b, c.bb):
+            if not k or k[0] != "bin":
+                continue
+            op, x, y = k[1], k[2], k[3]
+            if y[0] == "call" and x[0] == "const":
+                x, y = y, x
+                op = {"Ge": "Le", "Gt": "Lt", "Le": "Ge", "Lt": "Gt"}.get(op, op)
+            if not (x[0] == "call" and x[1].path == T + "next_index" and y[0] == "const" and isinstance(y[2], int)):
+                continue
+            cval = y[2]
+            lim = None
+            if (op, truth) in (("Ge", False), ("Lt", True)):
+                lim = cval           # next_index < cval
+            elif (op, truth) in (("Gt", False), ("Le", True)):
+                lim = cval + 1
+            if lim is not None:
+                bound = lim if bound is None else min(bound, lim)
+        ctx.check(bound is not None and bound <= max_k, "R32.5", "push|%s|slot-below-MAX_K" % c.path.split("::")[-1],
+                  "the store is reached only with next_index < %s <= MAX_K (%d)" % (bound, max_k),
+                  "Terminals::push reaches %s with next_index %s: slot MAX_K (%d) does not belong to the payload - with wide "
+                  "terminals it overlaps the length / bit-width nibbles of the header, otherwise the tuple silently grows to "
+                  "MAX_K + 1 terminals" % (c.path.split("::")[-1], ("< %d only" % bound) if bound is not None else "unbounded", max_k),
+                  where(b, c.line))
